@@ -17,7 +17,7 @@ RULE = ("each case: 1-6 (quick) / up to 12 (thorough) real directories and up to
         "three terminate. Non-trivial = the graph has a cycle or an object reachable by two different paths; distinct by whole case.")
 LEVEL_TEXT = "Random graphs against an independent breadth-first reference."
 ASSUMPTIONS = ["file caps are synthetic (never uploaded): deep-check reports them unhealthy, which is not asserted", "honest servers"]
-REQUIRED_CLASSES = ["cycle", "self-link", "shared-subdir", "rw-and-ro-link-to-same-object", "literal", "unknown", "deep-check"]
+REQUIRED_CLASSES = ["overlapping-deep-operations", "cycle", "self-link", "shared-subdir", "rw-and-ro-link-to-same-object", "literal", "unknown", "deep-check"]
 BUDGET = {"quick": 900, "thorough": 7200}
 FILEKINDS = ["lit", "lit", "chk", "chk", "ssk", "ssk-ro", "mdmf", "unknown"]
 
@@ -40,6 +40,7 @@ def cases(draw, maxdirs):
         if e[1] == "d":
             e[2] = e[2] % nd
     return {"fmt": [draw(st.sampled_from(["sdmf", "mdmf"])) for _ in range(nd)], "links": links + extra, "deepcheck": draw(st.integers(0, 2)) == 0,
+            "overlap": draw(st.sampled_from([None, ["stats", "stats"], ["stats", "manifest"], ["manifest", "stats", "manifest"]])), "osched": draw(st.lists(st.integers(0, 9), max_size=40)),
             "sched": draw(st.lists(st.integers(0, 5), max_size=20))}
 
 
@@ -183,6 +184,27 @@ def run_case(case, ctx):
             cnt = r[1].get_counters()
             ctx.check(cnt["count-objects-checked"] == len(exp_vcaps),     # literal files and unknown caps have nothing to check and are not counted
                       "wrong-check-count", "%s: deep-check checked %d objects; reachable objects with a verify cap: %d (+%d literal, %d unknown links)" % (desc, cnt["count-objects-checked"], len(exp_vcaps), lit_links, unknown_links))
+        # ---- overlapping deep operations in one process: each must still report exactly its own traversal
+        if case.get("overlap"):
+            classes.add("overlapping-deep-operations")
+            kinds = case["overlap"]
+            g.sched.choices, g.sched.ci = list(case.get("osched", [])), 0
+            ds = [(root.start_deep_stats() if kd == "stats" else root.build_manifest()).when_done() for kd in kinds]
+            rs = g.sched.run_all(ds, maxsteps=100000)
+            for kd, r in zip(kinds, rs):
+                if r[0] != "ok":
+                    ctx.fail("deep-op-failed" if r[0] == "err" else "hang", "%s: overlapping %s ended with %r" % (desc, kd, r))
+                    continue
+                if kd == "stats":
+                    for key, val in exp.items():
+                        ctx.check(r[1].get(key) == val, "wrong-stats", "%s: deep-stats running while %r ran too: %s=%r, reference %r" % (desc, kinds, key, r[1].get(key), val), counter=key, overlapping=True)
+                    ctx.check(r[1].get("count-files") == exp["count-literal-files"] + exp["count-mutable-files"] + exp["count-immutable-files"], "wrong-stats",
+                              "%s: deep-stats running while %r ran too: count-files=%r" % (desc, kinds, r[1].get("count-files")), counter="count-files", overlapping=True)
+                else:
+                    ctx.check(set(r[1]["verifycaps"]) == exp_vcaps, "wrong-reachable-set", "%s: manifest running while %r ran too: verify caps differ from the reachable set" % (desc, kinds), overlapping=True)
+                    st2 = r[1]["stats"]
+                    for key, val in exp.items():
+                        ctx.check(st2.get(key) == val, "wrong-stats", "%s: the manifest's statistics, while %r ran too: %s=%r, reference %r" % (desc, kinds, key, st2.get(key), val), counter=key, overlapping=True)
     finally:
         g.stop()
         mutfile.restore_segsize()
